@@ -71,6 +71,7 @@ type Exec struct {
 	decAtHead  map[*ssa.BasicBlock]string
 	axiomTerms []axiomTerm
 	axiomNames map[string]bool
+	curCallSig *types.Signature
 	name       string
 	curBlock   *ssa.BasicBlock
 	famBirth   map[string]string // family version symbol -> $alloc symbol current when the version was created
@@ -105,6 +106,11 @@ func newExec(w *World, fn *ssa.Function, con *Contract) *Exec {
 		declOwner: map[string]string{}, decAtHead: map[*ssa.BasicBlock]string{}, havocRecs: map[int]havocRec{}, itTable: map[string]itInfo{}, loopEntry: map[int]*State{}, famBirth: map[string]string{}, epochAlloc: map[int]string{0: "|$alloc@e0|"}, macros: map[string]bool{}, loopEffects: map[*ssa.BasicBlock]*effects{}, loopSets: map[*ssa.BasicBlock]map[*ssa.BasicBlock]bool{}, usedSpecFuncs: map[string]bool{}, namedPreds: map[string]string{}}
 	e.decl("(declare-sort Ref 0)")
 	e.decl("(declare-const null Ref)")
+	for _, im := range w.immutables {
+		if im.Fam != "" {
+			e.stablePrefixes = append(e.stablePrefixes, im.Fam)
+		}
+	}
 	return e
 }
 
@@ -664,7 +670,8 @@ func (e *Exec) blockFrom(s *State, b *ssa.BasicBlock, from int, depth int) {
 			e.hwrite(s, "len_"+sanitize(mt.String()), []string{"Ref"}, "Int", []string{r}, "0")
 			s.regs[x] = S("%s", r)
 		case *ssa.MakeChan:
-			e.abort("outside subset: channels")
+			// creating a channel is an allocation of an opaque object; sending/receiving stays outside the subset
+			s.regs[x] = S("%s", e.freshRef(s, "chan"))
 		case *ssa.MakeClosure:
 			cv := ClosureV{Fn: x.Fn.(*ssa.Function)}
 			for _, b := range x.Bindings {
